@@ -19,14 +19,18 @@ def common_obs(els, species=(), phases=(), extra=()):
          ("aH2O", 'ACT("H2O")', "i"), ("rho", "RHO", "i"), ("sc", "SC", "i"), ("tc", "TC", "i"),
          ("water", 'TOT("water")', "x"), ("vol", "SOLN_VOL", "x"), ("cb", "CHARGE_BALANCE", "xs"),
          ("totH", 'TOTMOLE("H")', "x"), ("totO", 'TOTMOLE("O")', "x")]
+    # 'r' marks quantities that the engine derives from the electron balance (dissolved O2 in a reacted solution is
+    # the small difference of the H and O balances): see REDOX note in mc/props/c15.py
     for e in els:
-        o.append(("tot_" + e, 'TOT("%s")' % e, "i"))
-        o.append(("totmole_" + e, 'TOTMOLE("%s")' % e, "x"))
+        r = "r" if e == "O(0)" else ""
+        o.append(("tot_" + e, 'TOT("%s")' % e, "i" + r))
+        o.append(("totmole_" + e, 'TOTMOLE("%s")' % e, "x" + r))
     for s in species:
-        o.append(("mol_" + s, 'MOL("%s")' % s, "i"))
+        o.append(("mol_" + s, 'MOL("%s")' % s, "i" + ("r" if s == "O2" else "")))
     for p in phases:
-        o.append(("sr_" + p, 'SR("%s")' % p, "i"))
-        o.append(("si_" + p, 'SI("%s")' % p, "i"))
+        r = "r" if p == "O2(g)" else ""
+        o.append(("sr_" + p, 'SR("%s")' % p, "i" + r))
+        o.append(("si_" + p, 'SI("%s")' % p, "i" + r))
     o += list(extra)
     return o
 
@@ -107,19 +111,19 @@ def bases():
     }
     # ---- 7 gas phase, fixed pressure
     sol7 = S(1, 7.0, [("Na", 1 * m), ("Cl", 1 * m), ("Ca", 1 * m), ("C(4)", 2 * m), ("O(0)", .25 * m)], temp=25.0)
-    gobs = [("g_CO2", 'GAS("CO2(g)")', "x"), ("g_O2", 'GAS("O2(g)")', "x"), ("g_N2", 'GAS("N2(g)")', "x"), ("p_CO2", 'PR_P("CO2(g)")', "i"),
-            ("p_O2", 'PR_P("O2(g)")', "i"), ("gas_p", "GAS_P", "i"), ("gas_vm", "GAS_VM", "i")]
+    gobs = [("g_CO2", 'GAS("CO2(g)")', "x"), ("g_O2", 'GAS("O2(g)")', "xr"), ("g_N2", 'GAS("Ntg(g)")', "x"), ("p_CO2", 'PR_P("CO2(g)")', "i"),
+            ("p_O2", 'PR_P("O2(g)")', "ir"), ("p_N2", 'PR_P("Ntg(g)")', "i"), ("gas_p", "GAS_P", "i"), ("gas_vm", "GAS_VM", "i")]
     B["gasp"] = {
         "sims": [[sol7, {"k": "GAS_PHASE", "n": 1, "kind": "fixed_pressure", "pressure": 1.2, "volume": .5, "temp": 25.0,
-                         "items": [("CO2(g)", .02), ("O2(g)", .2), ("N2(g)", .98)]}]],
-        "obs": common_obs(["Na", "Cl", "Ca", "C(4)", "O(0)", "N(0)"], ["CO2", "O2", "N2"], ["Calcite"], gobs),
+                         "items": [("CO2(g)", .02), ("O2(g)", .2), ("Ntg(g)", .98)]}]],
+        "obs": common_obs(["Na", "Cl", "Ca", "C(4)", "O(0)", "Ntg"], ["CO2", "O2", "Ntg"], ["Calcite"], gobs),
         "kinds": ["gas"],
     }
     # ---- 8 gas phase, fixed volume
     B["gasv"] = {
         "sims": [[sol7, {"k": "GAS_PHASE", "n": 1, "kind": "fixed_volume", "pressure": 1.0, "volume": .8, "temp": 25.0,
-                         "items": [("CO2(g)", .05), ("O2(g)", .15), ("N2(g)", .7)]}]],
-        "obs": common_obs(["Na", "Cl", "Ca", "C(4)", "O(0)", "N(0)"], ["CO2", "O2", "N2"], ["Calcite"], gobs),
+                         "items": [("CO2(g)", .05), ("O2(g)", .15), ("Ntg(g)", .7)]}]],
+        "obs": common_obs(["Na", "Cl", "Ca", "C(4)", "O(0)", "Ntg"], ["CO2", "O2", "Ntg"], ["Calcite"], gobs),
         "kinds": ["gas"],
     }
     # ---- 9 kinetics
@@ -127,8 +131,8 @@ def bases():
     B["kin"] = {
         "sims": [[{"k": "RATES", "text": RATES}, sol9,
                   {"k": "KINETICS", "n": 1, "steps": "3600 in 3 steps",
-                   "items": [{"name": "Halite_k", "formula": "NaCl 1", "m": 2 * m, "m0": 2 * m, "parms": [2e-4], "tol": 1e-9},
-                             {"name": "Calcite_k", "formula": "CaCO3 1", "m": 5 * m, "m0": 5 * m, "parms": [1e-5], "tol": 1e-9}]}]],
+                   "items": [{"name": "Halite_k", "formula": "NaCl 1", "m": 2 * m, "m0": 2 * m, "parms": [2e-4], "tol": 1e-13},
+                             {"name": "Calcite_k", "formula": "CaCO3 1", "m": 5 * m, "m0": 5 * m, "parms": [1e-5], "tol": 1e-13}]}]],
         "obs": common_obs(["Na", "Cl", "Ca", "C(4)", "O(0)"], ["HCO3-", "CaHCO3+"], ["Calcite", "CO2(g)"],
                           [("k_Halite", 'KIN("Halite_k")', "x"), ("k_Calcite", 'KIN("Calcite_k")', "x"), ("kd_Calcite", 'KIN_DELTA("Calcite_k")', "x")]),
         "kinds": ["kinetics"],
@@ -142,6 +146,10 @@ def bases():
         "obs": common_obs(["Na", "K", "Cl", "Ca", "Mg", "C(4)", "S(6)", "Si", "O(0)"], ["CaSO4", "HCO3-", "MgCO3", "H3SiO4-"], ["Calcite", "Gypsum", "CO2(g)"]),
         "kinds": ["speciation", "mix"],
     }
+    import copy
+    B["mixiso"] = copy.deepcopy(B["mix"])
+    for b in B["mixiso"]["sims"][0]:
+        b["temp"] = 25.0
     # ---- 11 everything at once
     sol11 = S(1, 7.0, [("Na", 4 * m), ("Cl", 5.2 * m), ("Ca", 1 * m), ("C(4)", 1 * m), ("Zn", .02 * m), ("K", .2 * m), ("O(0)", .25 * m)], temp=25.0)
     B["all"] = {
@@ -150,7 +158,7 @@ def bases():
                   {"k": "EXCHANGE", "n": 1, "items": [("X", .01)], "equil": 1},
                   {"k": "SURFACE", "n": 1, "items": [("Hfo_w", 1e-4, 600.0, .05), ("Hfo_s", 2.5e-6, None, None)], "equil": 1},
                   {"k": "GAS_PHASE", "n": 1, "kind": "fixed_volume", "pressure": 1.0, "volume": .3, "temp": 25.0,
-                   "items": [("CO2(g)", .01), ("O2(g)", .2), ("N2(g)", .79)]},
+                   "items": [("CO2(g)", .01), ("O2(g)", .2), ("Ntg(g)", .79)]},
                   {"k": "REACTION", "n": 1, "items": [("CaSO4", 1.0), ("HCl", .5)], "amounts": [.5 * m, 1.5 * m]}]],
         "obs": common_obs(["Na", "Cl", "Ca", "C(4)", "Zn", "K", "S(6)", "O(0)", "X", "Hfo_w"], ["CaX2", "NaX", "ZnX2", "Hfo_wOZn+", "Hfo_sOZn+", "HCO3-"],
                           ["Aragonite", "Anhydrite"],
